@@ -75,12 +75,13 @@ func (e *Engine) installIntrinsics(pkgPath string) {
 		return nil, true
 	}
 	e.intercept[p+"vrfMapOrder"] = func(e *Engine, fr *Frame, c *Ctx, a []Value, _ *ssa.CallCommon) (Value, bool) {
-		t := a[0].(BoolV).T
-		if !t.IsConst() {
-			unsup("vrfMapOrder needs a constant")
-		}
-		e.MapOrderND = t.IsTrue()
+		// "" = fixed (log) order; any other label = symbolic permutation with variables named after the label
+		e.MapOrderLabel = concreteStr(a[0])
+		e.MapOrderND = e.MapOrderLabel != ""
 		return nil, true
+	}
+	e.intercept[p+"vrfTrials"] = func(e *Engine, fr *Frame, c *Ctx, a []Value, _ *ssa.CallCommon) (Value, bool) {
+		return IntV{BV(64, 2)}, true
 	}
 	e.intercept[p+"vrfFreeze"] = func(e *Engine, fr *Frame, c *Ctx, a []Value, _ *ssa.CallCommon) (Value, bool) {
 		e.frozen = e.nextObj
